@@ -12,15 +12,26 @@ def range_offset(ctx, rule):
     body = ctx.body(LOOKUP)
     fn = body.path
     tok = [l for l, n in body.var_names.items() if body.local_ty(l).startswith("types::Token")]
-    if not ctx.check(len(tok) == 1, rule, fn, "token-local", "lookup_token builds one Token"):
+    lits = [body.expr_of_rvalue(s["rv"]) for bi, si, s, it in body.locations() if not it and s["k"] == "assign" and s["rv"]["k"] == "agg" and s["rv"].get("adt") == "types::Token"]
+    if not ctx.check(len(tok) == 1 or len(lits) == 1, rule, fn, "token-local", "lookup_token builds one Token"):
         return
-    T = tok[0]
+    T = tok[0] if len(tok) == 1 else None
     roles = {}  # the token's `raw` is the element the search returned (a field the literal set and nothing overwrites)
     RAW = "try(utils::greatest_lower_bound(arg1.tokens,tuple(arg2,arg3),\u03bb(tuple(p1.dst_line,p1.dst_col)))).1"
     writes = []
     for bi, si, s, is_term in body.locations():
-        if not is_term and s["k"] == "assign" and s["place"]["l"] == T and s["place"]["p"] and s["place"]["p"][-1].get("n") == "offset":
+        if T is not None and not is_term and s["k"] == "assign" and s["place"]["l"] == T and s["place"]["p"] and s["place"]["p"][-1].get("n") == "offset":
             writes.append((bi, si, q.shape(body.expr_of_rvalue(s["rv"]), roles)))
+    lit_init = None
+    if not writes and len(lits) == 1:
+        # the offset computed first (`let offset = if .. { col - dst_col } else { 0 }`) and the Token built once
+        ov = lits[0].field("offset")
+        while isinstance(ov, Named):
+            ov = ov.x
+        if isinstance(ov, Var) and not ov.is_arg:
+            ds_ = q.def_shapes(body, ov.local, roles)
+            writes = [(site[0], site[1], sh) for sh, site, _ in ds_ if sh != "0"]
+            lit_init = any(sh == "0" for sh, _, _ in ds_)
     ctx.check(len(writes) == 1, rule, fn, "offset:one-write", "the range offset is written at exactly one place", detail=str(writes))
     for bi, si, sh in writes:
         ctx.check(sh in ("Sub(arg3,%s.dst_col)" % RAW, "u32::saturating_sub(arg3,%s.dst_col)" % RAW, "u32::wrapping_sub(arg3,%s.dst_col)" % RAW), rule, fn, "offset:value",
@@ -44,14 +55,17 @@ def range_offset(ctx, rule):
                 continue
             extra.append(k)
         ctx.check(not extra, rule, fn, "offset:every-range-token", "every range token looked up on its own line gets the offset (no further condition such as 'has a source')", ctx.site(body, bi, si), detail=str(extra)[:300])
-    init = [sh for sh, site, _ in q.def_shapes(body, T, roles)]
+    init = [sh for sh, site, _ in q.def_shapes(body, T, roles)] if T is not None and lit_init is None else (["Token{..,offset:0}"] if lit_init else [])
     ctx.check(len(init) == 1 and init[0].endswith(",offset:0}"), rule, fn, "offset:init-0", "the Token starts with offset 0 (non-range tokens report their own column)", detail=str(init)[:300])
     g = ctx.body("types::Token::<'a>::get_src_col")
     calls = [q.shape(g.expr_of_call(t)) for bi, t in g.calls()]
     ctx.check(calls == ["u32::saturating_add(arg1.raw.src_col,arg1.offset)"], rule, g.path, "get_src_col", "the original column is src_col + offset with a saturating addition", detail=str(calls))
-    gt = ctx.body("types::SourceMap::get_token::{closure#0}")
+    gt = ctx.facts.body("types::SourceMap::get_token::{closure#0}", required=False)
+    if gt is None or gt.raw.get("inlined_away"):
+        gt = ctx.body("types::SourceMap::get_token")  # `let raw = self.tokens.get(idx)?; Some(Token { .. })`
     aggs = [q.shape(gt.expr_of_rvalue(s["rv"])) for bi, si, s, it in gt.locations() if not it and s["k"] == "assign" and s["rv"]["k"] == "agg" and s["rv"].get("adt") == "types::Token"]
-    ctx.check(aggs == ["Token{raw:arg2,sm:^arg1,idx:^arg2,offset:0}"], rule, gt.path, "get_token:offset-0", "tokens obtained by index or iteration carry offset 0", detail=str(aggs))
+    ctx.check(aggs in (["Token{raw:arg2,sm:^arg1,idx:^arg2,offset:0}"], ["Token{raw:try(slice::get(arg1.tokens,arg2)),sm:arg1,idx:arg2,offset:0}"]), rule, gt.path, "get_token:offset-0",
+              "tokens obtained by index or iteration carry offset 0", detail=str(aggs))
     # no other body writes Token.offset
     others = []
     for b in ctx.facts.local_fns():
